@@ -245,13 +245,22 @@ def work(k):
         subprocess.run(["git", "-C", repo, "checkout", "-q", "--", "."], check=True)
         lines = open(path).read().split("\n")
         ln = m["line"] - 1
-        assert lines[ln][m["start"]:m["end"]] == m["old"], (m, lines[ln])
+        if ln >= len(lines) or lines[ln][m["start"]:m["end"]] != m["old"] or lines[ln].strip()[:160] != m["text"]:
+            rec = dict(m, outcome="stale", detail="the source line changed since the list was generated", secs=0, worker=k)
+            with open(os.path.join(BASE, "results.jsonl"), "a") as f:
+                fcntl.flock(f, fcntl.LOCK_EX)
+                f.write(json.dumps(rec) + "\n")
+            continue
         lines[ln] = lines[ln][:m["start"]] + m["new"] + lines[ln][m["end"]:]
         open(path, "w").write("\n".join(lines))
         t0 = time.time()
         outcome, detail = "survived", ""
         for p in m["props"]:
-            r = subprocess.run(["bin/check", p, "quick"], cwd=verif, env=env, capture_output=True, text=True, timeout=3000)
+            try:
+                r = subprocess.run(["bin/check", p, "quick"], cwd=verif, env=env, capture_output=True, text=True, timeout=3000)
+            except subprocess.TimeoutExpired:
+                outcome, detail = f"killed:{p}", "the check itself timed out (no verdict within 50 min)"
+                break
             out = r.stdout + r.stderr
             if r.returncode != 0:
                 if "no-failing-input-found" in out:
@@ -283,6 +292,8 @@ def report():
     rs = [json.loads(l) for l in open(os.path.join(BASE, "results.jsonl"))]
     by = {}
     for r in rs:
+        if r["outcome"] == "stale":
+            continue
         d = by.setdefault(r["file"], {"killed": 0, "survived": 0, "invalid": 0, "nofail": 0})
         if r["outcome"].startswith("killed"):
             d["killed"] += 1
